@@ -374,6 +374,8 @@ def summaryPages(system: model.System) -> Iterable[Type[Page]]:
         NameIndexPage,
         UndocumentedSummaryPage,
     ]
-    if len(system.root_names) > 1:
+    if len(system.root_names) > 1 or not any(o.isVisible for o in system.rootobjects):
+        # Several roots, or a single root that is hidden (its page is not written to index.html):
+        # every page links to index.html.
         pages.append(IndexPage)
     return pages
